@@ -16,6 +16,24 @@ MSM_SHAPES = {
 }
 
 
+def concrete_bytes(patches, nbytes):
+    """Rust statements that make every byte touched by a patch a CONSTANT (count/mask bits as asked,
+    the neighbouring bits of those bytes zero). A bit-wise set_bits on symbolic bytes leaves the
+    extracted field a symbolic expression for CBMC's constant propagation, so loop counts would not
+    fold; whole-byte constants do. The few neighbouring bits that become concrete are a stated bound."""
+    vals = {}
+    for off, w, val in patches:
+        for i in range(w):
+            pos = off + i
+            if pos >= 8 * nbytes:
+                continue
+            b = pos // 8
+            vals.setdefault(b, 0)
+            if (val >> (w - 1 - i)) & 1:
+                vals[b] |= 0x80 >> (pos % 8)
+    return " ".join("payload[%d] = 0x%02x;" % (b, v) for b, v in sorted(vals.items()))
+
+
 def msm_header_bits(G, mod):
     fr = G.T.frags[mod]
     tot = 0
@@ -62,8 +80,7 @@ def generate(T, tier):
 #[kani::unwind(66)]
 pub fn %s() {
     let mut payload: [u8; %d] = kani::any();
-    set_bits(&mut payload, %d, 64, 0x%x);
-    set_bits(&mut payload, %d, 32, 0x%x);
+    %s
     let mut par = Parser::new(&payload, 12);
     match codec::%s::decode(&mut par) {
         Ok(m) => {
@@ -74,13 +91,13 @@ pub fn %s() {
         Err(_) => {}
     }
 }
-""" % (name, B, 12 + hdr, satmask, 12 + hdr + 64, sigmask, mod, "\n            ".join(fin)))
+""" % (name, B, concrete_bytes([(12 + hdr, 64, satmask), (12 + hdr + 64, 32, sigmask)], B), mod, "\n            ".join(fin)))
                 hs.append({"name": "c02::%s" % name, "group": "msm", "tier": "quick" if (q and sname in ("empty", "2x2", "9x8")) else "thorough",
                            "bounds": "%s: every %d-byte payload whose satellite/signal masks are the concrete shape %s (cell mask and all data symbolic)" % (mod, B, sname)})
             continue
         fixed = not G.has_var(mod)
         cap = G.max_cap(mod)
-        unw = max(12, cap + 2)
+        unw = max(12, min(cap, 64) + 2)
         stub = "#[kani::stub(core::str::from_utf8, crate::util::from_utf8_ref)]\n" if mod == "msg1029" else ""
         grp = "stub" if mod == "msg1029" else ("big" if cap >= 390 else "main")
         variants = []   # (name, bytes, patches [(off,width,val)], main?, description)
@@ -132,7 +149,7 @@ pub fn %s() {
             fin = []
             G.finite_checks(mod, "m", 2, fin)
             name = "%s_%s" % (mod, vname)
-            pt = "\n    ".join("set_bits(&mut payload, %d, %d, %d);" % p for p in patches if p[0] + p[1] <= 8 * B)
+            pt = concrete_bytes(patches, B)
             code.append("""#[kani::proof]
 #[kani::unwind(%d)]
 %spub fn %s() {
@@ -149,15 +166,17 @@ pub fn %s() {
     }
 }
 """ % (unw, stub, name, B, pt, mod, "\n            ".join(fin)))
-            hs.append({"name": "c02::%s" % name, "group": grp, "tier": "quick" if (q and main) else "thorough",
+            heavy = mod in ("msg1004", "msg1012", "msg1003", "msg1011", "msg1002", "msg1010")
+            is_q = q and (main if not heavy else vname == "n1")
+            hs.append({"name": "c02::%s" % name, "group": grp, "tier": "quick" if is_q else "thorough",
                        "bounds": "%s: every payload of %d bytes with %s" % (mod, B, desc)})
     gen.write_gen("c02_list.rs", "\n".join(code))
     return {
         "harnesses": hs,
         "groups": {"main": {"features": ["c02"], "timeout_s": 1800},
                    "msm": {"features": ["c02"], "timeout_s": 2400},
-                   "big": {"features": ["c02"], "timeout_s": 2400},
-                   "stub": {"features": ["c02"], "timeout_s": 1800, "kani_args": ["-Z", "stubbing"]}},
+                   "big": {"features": ["c02"], "timeout_s": 2400, "unwindset": [["try_from_fn_erased", 392]], "mem_gb": 26, "max_jobs": 2},
+                   "stub": {"features": ["c02"], "timeout_s": 1800, "unwindset": [["try_from_fn_erased", 392]], "mem_gb": 26, "max_jobs": 2, "kani_args": ["-Z", "stubbing"]}},
         "level": "model_checking",
         "functions": ["rtcm_rs::msg::msgNNNN::decode for all %d message types (called through the verification hook re-exports)" % len(T.messages),
                       "Parser::parse, df::dfs::*::decode, frag_vec/frag_vec_with_len/frag_grid16p/msm_* decode, DataVec::push/set_len"],
